@@ -174,8 +174,21 @@ func agreement(w *world, nodes []*node, replay func() interface{}) {
 				continue
 			}
 			if !a.isAncestorOf(b) && !b.isAncestorOf(a) {
-				w.run.Fail(fmt.Sprintf("two correct nodes hold irreversible blocks on conflicting branches: %s has %s (no %d), %s has %s (no %d)",
-					nodes[i].selfName(), a.name, a.no, nodes[j].selfName(), b.name, b.no), replay())
+				// a node on which a tagged node-local failure was already reported (its LIB left the main chain, regressed,
+				// or its vetoes were off) carries that class: the disagreement is a consequence
+				class := nodes[i].taint
+				if class == "" {
+					class = nodes[j].taint
+				}
+				w.run.Count("fail-class=agreement/" + class)
+				if class != "" {
+					classSeen["agreement/"+class]++
+					if classSeen["agreement/"+class] > 2 {
+						continue
+					}
+				}
+				w.run.FailKnown(fmt.Sprintf("two correct nodes hold irreversible blocks on conflicting branches: %s has %s (no %d), %s has %s (no %d)",
+					nodes[i].selfName(), a.name, a.no, nodes[j].selfName(), b.name, b.no), class, replay())
 			}
 		}
 	}
